@@ -308,6 +308,29 @@ def run_class(pane, res, idx, combo, fmt, hook, only=None):
             core.add_violation(res, {'kind': 'post_init_count', **sig0},
                                f"class[{kinds}] in_format={fmt}: __post_init__ ran {n} times for {ninst} instances created",
                                dict(cell_base, mask=None, variant=None, path='count'), 3)
+    # ---- a derived class inherits the hook: "runs for every instance created, a failure there surfacing as ConvertError on data paths"
+    if hook == 'raise' and only is None and raw_for(decl[0], 'trigger') is not None:
+        Sub = grammar.pin(type('C14Sub', (cls,), {'__annotations__': {}, '__module__': 'mc.generated'}))
+        supplied = {f['name']: (raw_for(f, 'trigger') if f is decl[0] else raw_for(f, 'good')) for f in decl}
+        if all(v is not None for v in supplied.values()):
+            paths = [('mapping data', lambda: pane.from_data(values.fresh(supplied), Sub)), ('keywords', lambda: Sub(**values.fresh(supplied)))]
+            if tuple_ok and not any(f['kw_only'] for f in decl):
+                paths.append(('sequence data', lambda: pane.from_data([values.fresh(supplied[f['name']]) for f in fields], Sub)))
+            for pname, run in paths:
+                res['evals'] += 1
+                res['transitions'] += 1
+                res['validated'] += 1
+                try:
+                    got = run()
+                    problem = f"returned {got!r}: the inherited hook did not run or its failure was swallowed"
+                except ConvertError:
+                    problem = None
+                except Exception as e:  # noqa
+                    problem = None if (pname == 'keywords' and isinstance(e, classes_gen.HookBoom)) else f"raised {type(e).__name__}: {core.sstr(e, 80)}"
+                if problem:
+                    core.add_violation(res, {'kind': 'inherited_hook', 'path': pname, **sig0},
+                                       f"class[{kinds}] in_format={fmt}: a subclass that inherits the raising __post_init__, {pname} with the triggering value: {problem}",
+                                       dict(cell_base, mask=None, variant='trigger', path='derived:' + pname), 4)
     # ---- histories: construct, mutate the default container, construct again (all ordered pairs of paths)
     facs = [f for f in decl if f['default'] and f['default'][0] == 'factory' and f['default'][1] in ('list', 'dict')]
     if facs and not [f for f in decl if not classes_gen.has_default(f)] and only is None:
